@@ -128,6 +128,9 @@ func initTypeText(e ast.Expr) string {
 			if id, ok := sel.X.(*ast.Ident); ok && id.Name == "ring" && sel.Sel.Name == "New" {
 				return "ring.Ring"
 			}
+			if id, ok := sel.X.(*ast.Ident); ok && id.Obj == nil {
+				return id.Name + ".?" // result of a function of another package (regexp.MustCompile, …)
+			}
 		}
 	}
 	return ""
@@ -198,10 +201,88 @@ func (p *srcPkg) forEachPkgVarMutation(n ast.Node, imports map[string]string, si
 			}
 			if (containerLike[kind] && !containerReadOnly[m]) || mutatingMethod[m] {
 				sink(id.Name, "call:"+m, s.Pos())
+				return true
+			}
+			// a package-level object of a type of this package: does the method change it?
+			if fd, _ := p.methodDecl(kind, m); fd != nil {
+				if mut, locked := p.methodMutatesReceiver(kind, m, 0); mut {
+					k := "method:" + m
+					if locked {
+						k += "+lock"
+					}
+					sink(id.Name, k, s.Pos())
+				}
+				return true
+			}
+			// a type of another package that is not a known container: listed, to be justified
+			if kind != "" && !containerLike[kind] && strings.Contains(kind, ".") && kind != "sync.Mutex" && kind != "sync.RWMutex" {
+				sink(id.Name, "extcall:"+kind+"."+m, s.Pos())
 			}
 		}
 		return true
 	})
+}
+
+// methodDecl finds the declaration of method m on the named type of this package.
+func (p *srcPkg) methodDecl(typ, m string) (*ast.FuncDecl, *ast.File) {
+	for _, f := range p.files {
+		for _, d := range f.Decls {
+			if fd, ok := d.(*ast.FuncDecl); ok && fd.Body != nil && fd.Recv != nil && len(fd.Recv.List) == 1 &&
+				fd.Name.Name == m && typeNameOf(fd.Recv.List[0].Type) == typ {
+				return fd, f
+			}
+		}
+	}
+	return nil, nil
+}
+
+// methodMutatesReceiver: does the method (or a same-type method it calls, two levels) write a
+// component of its receiver? Second result: does it take a lock first (hint only).
+func (p *srcPkg) methodMutatesReceiver(typ, m string, depth int) (bool, bool) {
+	fd, f := p.methodDecl(typ, m)
+	if fd == nil || depth > 2 {
+		return false, false
+	}
+	var recv *ast.Ident
+	if len(fd.Recv.List[0].Names) == 1 {
+		recv = fd.Recv.List[0].Names[0]
+	}
+	if recv == nil {
+		return false, false
+	}
+	imports := fileImports(f)
+	mut, locked := false, false
+	forEachWrite(fd.Body, imports, func(t ast.Expr, kind string, pos token.Pos) {
+		if id, _ := rootOf(t, imports); id != nil && id.Obj == recv.Obj {
+			if _, bare := unparen(t).(*ast.Ident); !bare {
+				mut = true
+				if lockBefore(fd.Body, pos) {
+					locked = true
+				}
+			}
+		}
+	})
+	ast.Inspect(fd.Body, func(n ast.Node) bool {
+		if c, ok := n.(*ast.CallExpr); ok {
+			if sel, ok := c.Fun.(*ast.SelectorExpr); ok {
+				// mutating call on a field of the receiver (r.items.PushBack, r.m.Store) or another method of the receiver
+				if id, path := selectorPath(sel.X); id != nil && id.Obj == recv.Obj {
+					if len(path) > 0 && (mutatingMethod[sel.Sel.Name] || sel.Sel.Name == "Add") {
+						mut = true
+						locked = locked || lockBefore(fd.Body, c.Pos())
+					}
+					if len(path) == 0 {
+						if m2, l2 := p.methodMutatesReceiver(typ, sel.Sel.Name, depth+1); m2 {
+							mut = true
+							locked = locked || l2 || lockBefore(fd.Body, c.Pos())
+						}
+					}
+				}
+			}
+		}
+		return true
+	})
+	return mut, locked
 }
 
 // isPkgLevel says whether an identifier occurrence denotes a package-level
@@ -430,6 +511,53 @@ func pkgWriteFacts(root string, pkgs []string) ([]srcWrite, *callGraph, error) {
 							writes = append(writes, w)
 						}
 					})
+					// local aliases of package-level objects: x := pkgVar[k] / x, ok := pkgVar[k] / x := pkgVar.f / x := pkgVar
+					aliases := map[*ast.Object][]string{}
+					ast.Inspect(body, func(n ast.Node) bool {
+						as, ok := n.(*ast.AssignStmt)
+						if !ok || len(as.Rhs) != 1 || len(as.Lhs) < 1 {
+							return true
+						}
+						if _, isCall := unparen(as.Rhs[0]).(*ast.CallExpr); isCall {
+							return true
+						}
+						rid, _ := rootOf(as.Rhs[0], imports)
+						if rid == nil || !p.isPkgLevel(rid) {
+							return true
+						}
+						if u, isAddr := unparen(as.Rhs[0]).(*ast.UnaryExpr); isAddr && u.Op != token.AND {
+							return true
+						}
+						if lid, ok := as.Lhs[0].(*ast.Ident); ok && lid.Obj != nil && lid.Name != "_" {
+							aliases[lid.Obj] = append(aliases[lid.Obj], rid.Name)
+						}
+						return true
+					})
+					if len(aliases) > 0 {
+						forEachWrite(body, imports, func(t ast.Expr, kind string, pos token.Pos) {
+							id, _ := rootOf(t, imports)
+							if id == nil || id.Obj == nil {
+								return
+							}
+							vsAliased, ok := aliases[id.Obj]
+							if !ok {
+								return
+							}
+							if _, bare := unparen(t).(*ast.Ident); bare && kind != "addr" {
+								return // re-binding the local, not a write through it
+							}
+							if kind == "addr" {
+								return
+							}
+							for _, v := range vsAliased {
+								w := srcWrite{p.name + "." + v, fn, kind + "@alias"}
+								if !seen[w] {
+									seen[w] = true
+									writes = append(writes, w)
+								}
+							}
+						})
+					}
 					p.forEachPkgVarMutation(body, imports, func(v string, kind string, pos token.Pos) {
 						w := srcWrite{p.name + "." + v, fn, kind}
 						if !seen[w] {
@@ -603,7 +731,7 @@ type objWrite struct {
 }
 
 func isSharedObjType(name string) bool {
-	return name == "ECALRuntimeProvider" || strings.HasSuffix(name, "Runtime")
+	return name == "ECALRuntimeProvider" || strings.HasSuffix(name, "Runtime") || name == "ASTNode" || name == "function"
 }
 
 func typeNameOf(e ast.Expr) string {
@@ -612,6 +740,9 @@ func typeNameOf(e ast.Expr) string {
 	}
 	if id, ok := e.(*ast.Ident); ok {
 		return id.Name
+	}
+	if sel, ok := e.(*ast.SelectorExpr); ok { // parser.ASTNode
+		return sel.Sel.Name
 	}
 	return ""
 }
@@ -710,6 +841,8 @@ func sharedObjectWriteFacts(root string, pkg string) ([]objWrite, error) {
 					obj, field = "ECALRuntimeProvider", path[1]
 				} else if field == "baseRuntime" && len(path) > 1 {
 					field = path[1]
+				} else if field == "node" && len(path) > 1 {
+					obj, field = "ASTNode", path[1] // the AST node the component is attached to: shared by all evaluations
 				}
 				if kind != "atomic" && lockBefore(body, pos) {
 					kind += "+lock"
@@ -723,6 +856,44 @@ func sharedObjectWriteFacts(root string, pkg string) ([]objWrite, error) {
 					seen[w] = true
 					out = append(out, w)
 				}
+			})
+			// mutating method calls on FIELDS of shared objects: rt.erp.MutexLog.Add(…), rt.cache.Store(…)
+			ast.Inspect(body, func(n ast.Node) bool {
+				c, ok := n.(*ast.CallExpr)
+				if !ok {
+					return true
+				}
+				sel, ok := c.Fun.(*ast.SelectorExpr)
+				if !ok || !(mutatingMethod[sel.Sel.Name] || sel.Sel.Name == "Add" || sel.Sel.Name == "Get") {
+					return true
+				}
+				id, path := selectorPath(sel.X)
+				if id == nil || id.Obj == nil || len(path) == 0 {
+					return true
+				}
+				obj, ok := shared[id.Obj]
+				if !ok {
+					return true
+				}
+				field := path[0]
+				if field == "erp" && len(path) > 1 {
+					obj, field = "ECALRuntimeProvider", path[1]
+				} else if field == "erp" || field == "baseRuntime" {
+					return true // a method of the provider / base component itself, not of a field
+				}
+				if sel.Sel.Name == "Get" && !(strings.Contains(strings.ToLower(field), "pool")) {
+					return true
+				}
+				phase := "run"
+				if fd.Name.Name == "Validate" && fd.Recv != nil {
+					phase = "validate"
+				}
+				w := objWrite{obj, field, fn, "call:" + sel.Sel.Name, phase}
+				if !seen[w] {
+					seen[w] = true
+					out = append(out, w)
+				}
+				return true
 			})
 		}
 	}
@@ -870,6 +1041,72 @@ func counterFlows(root, pkg, name string) ([][2]string, error) {
 						seen[e] = true
 						out = append(out, e)
 					}
+				}
+				return true
+			})
+		}
+	}
+	sort.Slice(out, func(i, j int) bool { return out[i][0]+out[i][1] < out[j][0]+out[j][1] })
+	return out, nil
+}
+
+// ---------------------------------------------------------------- Validate call sites
+
+// validateCallSites: every call `<x>.Validate()` in the package, classified:
+// "recursion" = inside a method named Validate, on the embedded base component or on a child's runtime;
+// "fresh"     = on the Runtime of a tree the same function obtained from ParseWithRuntime / Parse (validated
+//               by the goroutine that parsed it, before anybody else can hold it);
+// "other"     = anything else (e.g. a lazily validating Eval on a shared component).
+func validateCallSites(root, pkg string) ([][2]string, error) {
+	p, err := loadSrcPkg(filepath.Join(root, pkg))
+	if err != nil {
+		return nil, err
+	}
+	var out [][2]string
+	seen := map[[2]string]bool{}
+	for _, f := range p.files {
+		for _, d := range f.Decls {
+			fd, ok := d.(*ast.FuncDecl)
+			if !ok || fd.Body == nil {
+				continue
+			}
+			fn := funcName(p.name, fd)
+			// trees obtained from the parser in this function
+			fresh := map[*ast.Object]bool{}
+			ast.Inspect(fd.Body, func(n ast.Node) bool {
+				if as, ok := n.(*ast.AssignStmt); ok && len(as.Rhs) == 1 {
+					if c, ok := as.Rhs[0].(*ast.CallExpr); ok {
+						if sel, ok := c.Fun.(*ast.SelectorExpr); ok && (sel.Sel.Name == "ParseWithRuntime" || sel.Sel.Name == "Parse") {
+							if id, ok := as.Lhs[0].(*ast.Ident); ok && id.Obj != nil {
+								fresh[id.Obj] = true
+							}
+						}
+					}
+				}
+				return true
+			})
+			ast.Inspect(fd.Body, func(n ast.Node) bool {
+				c, ok := n.(*ast.CallExpr)
+				if !ok {
+					return true
+				}
+				sel, ok := c.Fun.(*ast.SelectorExpr)
+				if !ok || sel.Sel.Name != "Validate" || len(c.Args) != 0 {
+					return true
+				}
+				class := "other"
+				id, path := selectorPath(sel.X)
+				switch {
+				case id != nil && id.Obj != nil && fresh[id.Obj]:
+					class = "fresh"
+				case fd.Name.Name == "Validate" && fd.Recv != nil && id != nil && len(path) >= 1 &&
+					(path[len(path)-1] == "baseRuntime" || path[len(path)-1] == "Runtime" || strings.HasSuffix(path[len(path)-1], "Runtime")):
+					class = "recursion"
+				}
+				e := [2]string{fn, class}
+				if !seen[e] {
+					seen[e] = true
+					out = append(out, e)
 				}
 				return true
 			})
